@@ -22,7 +22,7 @@ SHARDS = {"quick": 8, "thorough": 16}
 
 
 def gen_cases(tier, seed):
-    n = 320 if tier == "quick" else 24000
+    n = 1600 if tier == "quick" else 400000
     kinds = ["arange", "dyadic", "geometric", "random", "repeated", "single", "param_grid"]
     return [{"i": i, "kind": kinds[i % len(kinds)], "seed": seed} for i in range(n)]
 
